@@ -330,7 +330,7 @@ Proof.
   assert (H : handle (m_init s) c (SubscribeEvent (Some serial) sc ev) f b = Done {| ms := s1; mw := work0; mo := o1 |}).
   { rewrite (handle_SubscribeEvent _ c cs) by exact Hc. cbn [ms m_init]. rewrite Hs, Ho.
     erewrite send_alive by eassumption. cbn [andThen]. cbv zeta. subst o1. unfold alive, has. cbn [ms set].
-    change (conns (set svcs _ s)) with (conns s).
+    match goal with |- context [bool_decide (is_Some (?t !! owner))] => change t with (conns s) end.
     destruct (s_events sv !! ev) as [set0|] eqn:Eev.
     - rewrite (bool_decide_eq_true_2 (is_Some (Some set0))) by eauto.
       rewrite (bool_decide_eq_false_2 (Some set0 = None)) by discriminate. reflexivity.
@@ -408,7 +408,7 @@ Proof.
   set (s1 := s <| svcs ::= _ |>). set (o1 := _ :: _).
   assert (H : handle (m_init s) c (SubscribeAllEvents (Some serial) sc) f b = Done {| ms := s1; mw := work0; mo := o1 |}).
   { rewrite (handle_SubscribeAllEvents _ c cs) by assumption. cbn [ms m_init]. rewrite Hs, Ho, Hoc, Hsub.
-    cbn [default negb orb]. change MIN_SUBSCRIBE_ALL_EVENTS_OWNER with 18.
+    cbn [default from_option id negb orb]. change MIN_SUBSCRIBE_ALL_EVENTS_OWNER with 18.
     destruct (N.ltb_spec (cs_ver ocs) 18) as [?|_]; [lia|].
     erewrite send_alive by eassumption. cbn [andThen]. cbv zeta. subst o1.
     destruct (bool_decide (s_all sv = ∅)); [|reflexivity].
@@ -442,3 +442,709 @@ Proof.
       erewrite send_ignore_connected by (cbn; exact Hoc). destruct (cs_alive ocs); reflexivity. }
   apply step_message_idle in H; [exact H|reflexivity].
 Qed.
+
+(* rejected requests: no message to the owner, no state change *)
+Theorem subscribe_all_rejected s c cs serial sc f b :
+  conns s !! c = Some cs -> cs_alive cs = true -> 18 <= cs_ver cs ->
+  (svc_by_cookie s sc = None \/
+   exists k sv owner ocs, svc_by_cookie s sc = Some (k, sv) /\ owner_of_svc s k = Some owner /\
+     conns s !! owner = Some ocs /\ (i_sub_all (s_info sv) <> Some true \/ cs_ver ocs < 18)) ->
+  exists r, r <> SAOk /\
+    step s (Message c (SubscribeAllEvents (Some serial) sc)) f b =
+      Done (s, [(c, SubscribeAllEventsReply serial r, None)]).
+Proof.
+  intros Hc Hal Hv Hcase.
+  assert (H : exists r, r <> SAOk /\ handle (m_init s) c (SubscribeAllEvents (Some serial) sc) f b =
+              Done (m_init s <| mo := [(c, SubscribeAllEventsReply serial r, None)] |>)).
+  { rewrite (handle_SubscribeAllEvents _ c cs) by assumption. cbn [ms m_init].
+    destruct Hcase as [->|(k & sv & owner & ocs & -> & -> & -> & Hno)].
+    - exists SAInvalid. split; [discriminate|]. erewrite send_alive by eassumption. reflexivity.
+    - exists SANotSupported. split; [discriminate|].
+      assert (E : negb (default false (i_sub_all (s_info sv))) || (cs_ver ocs <? MIN_SUBSCRIBE_ALL_EVENTS_OWNER) = true).
+      { change MIN_SUBSCRIBE_ALL_EVENTS_OWNER with 18. destruct Hno as [Hno|Hno].
+        - destruct (i_sub_all (s_info sv)) as [[|]|]; cbn; try reflexivity. congruence.
+        - destruct (N.ltb_spec (cs_ver ocs) 18); [|lia]. apply orb_true_r. }
+      rewrite E. erewrite send_alive by eassumption. reflexivity. }
+  destruct H as (r & Hr & H). exists r. split; [exact Hr|].
+  apply step_message_idle in H; [exact H|reflexivity].
+Qed.
+
+(* ---------------------------------------------------------------- remove_service *)
+Definition connected (s : state) (x : conn) : bool := bool_decide (is_Some (conns s !! x)).
+
+(* the connections told about the destruction of a service: the service's subscribers and the
+   subscribers of any single event (NOT those subscribed to all events only — this is what
+   Broker::remove_service does) *)
+Definition event_subscribers (sv : svc) : gset conn := map_fold (fun _ set acc => set ∪ acc) ∅ (s_events sv).
+Definition destroyed_targets (sv : svc) : gset conn := s_subs sv ∪ event_subscribers sv.
+
+Lemma event_subscribers_spec sv x :
+  x ∈ event_subscribers sv <-> exists e set, s_events sv !! e = Some set /\ x ∈ set.
+Proof.
+  unfold event_subscribers.
+  apply (map_fold_ind (fun (r : gset conn) (E : gmap N (gset conn)) => x ∈ r <-> exists e set, E !! e = Some set /\ x ∈ set)).
+  - split; [intros H; exfalso; revert H; apply not_elem_of_empty|].
+    intros (e & set & H & _). rewrite lookup_empty in H. discriminate.
+  - intros e set E r Hnone IH. rewrite elem_of_union, IH. split.
+    + intros [H|(e' & set' & H1 & H2)].
+      * exists e, set. rewrite lookup_insert. auto.
+      * exists e', set'. rewrite lookup_insert_ne; [auto|]. intros ->. rewrite Hnone in H1. discriminate.
+    + intros (e' & set' & H1 & H2). destruct (decide (e = e')) as [<-|Hne].
+      * rewrite lookup_insert in H1. injection H1 as <-. left. exact H2.
+      * rewrite lookup_insert_ne in H1 by exact Hne. right. eauto.
+Qed.
+
+(* the reply entry queued for a pending call of a removed service *)
+Definition rm_call_entry (s : state) (b : N) : option (N * conn * call_result) :=
+  match calls s !! b with
+  | Some cl => if c_aborted cl then None else Some (c_serial cl, c_caller cl, CRInvalidService)
+  | None => None
+  end.
+
+Definition rm_call_f (m : M) (b : N) : outcome M :=
+  match calls (ms m) !! b with
+  | None => Panic 11
+  | Some cl =>
+      let m' := m <| ms; calls ::= delete b |> in
+      Done (if c_aborted cl then m'
+            else m' <| mw; w_rm_call ::= cons (c_serial cl, c_caller cl, CRInvalidService) |>)
+  end.
+
+Lemma rm_calls_fold l : NoDup l -> forall m m', foldO rm_call_f l m = Done m' ->
+  (forall b, calls (ms m') !! b = if bool_decide (b ∈ l) then None else calls (ms m) !! b) /\
+  w_rm_call (mw m') = rev (omap (rm_call_entry (ms m)) l) ++ w_rm_call (mw m) /\
+  m' = m <| ms; calls := calls (ms m') |> <| mw; w_rm_call := w_rm_call (mw m') |> /\
+  Forall (fun b => is_Some (calls (ms m) !! b)) l.
+Proof.
+  induction 1 as [|b l Hb Hnd IH]; intros m m'; cbn [foldO].
+  - intros [= <-]. split; [|split; [|split]].
+    + intros b. rewrite bool_decide_eq_false_2; [reflexivity|apply not_elem_of_nil].
+    + reflexivity.
+    + destruct m as [[] [] ?]; reflexivity.
+    + constructor.
+  - unfold rm_call_f at 1. destruct (calls (ms m) !! b) as [cl|] eqn:Eb; [|discriminate].
+    set (m1 := if c_aborted cl then _ else _). intros H. apply IH in H as (H1 & H2 & H3 & H4).
+    assert (Hc1 : calls (ms m1) = delete b (calls (ms m))) by (subst m1; destruct (c_aborted cl); reflexivity).
+    assert (Hpt : forall b', b' <> b -> rm_call_entry (ms m1) b' = rm_call_entry (ms m) b').
+    { intros b' Hne. unfold rm_call_entry. rewrite Hc1, lookup_delete_ne by congruence. reflexivity. }
+    assert (Hent : omap (rm_call_entry (ms m1)) l = omap (rm_call_entry (ms m)) l).
+    { clear -Hb Hpt. induction l as [|b' l IH]; cbn [omap list_omap]; [reflexivity|].
+      rewrite Hpt, IH; [reflexivity| |].
+      - intros ?. apply Hb. right. assumption.
+      - intros ->. apply Hb. left. }
+    split; [|split; [|split]].
+    + intros b'. rewrite H1, Hc1. destruct (decide (b' = b)) as [->|Hne].
+      * rewrite (bool_decide_eq_true_2 (b ∈ b :: l)) by left. rewrite lookup_delete. destruct (bool_decide _); reflexivity.
+      * rewrite lookup_delete_ne by congruence.
+        destruct (bool_decide_reflect (b' ∈ l)) as [Hin|Hnin].
+        -- rewrite bool_decide_eq_true_2; [reflexivity|right; exact Hin].
+        -- rewrite bool_decide_eq_false_2; [reflexivity|]. intros Hx. apply elem_of_cons in Hx as [?|?]; auto.
+    + rewrite H2, Hent. cbn [omap list_omap]. unfold rm_call_entry at 2. rewrite Eb.
+      subst m1. destruct (c_aborted cl); cbn; [reflexivity|]. rewrite <- app_assoc. reflexivity.
+    + rewrite H3. subst m1. destruct (c_aborted cl); reflexivity.
+    + constructor; [rewrite Eb; eauto|].
+      eapply Forall_impl; [exact H4|]. cbn. intros b' Hb'. rewrite Hc1 in Hb'.
+      destruct (decide (b' = b)) as [->|Hne]; [rewrite Eb; eauto|]. rewrite lookup_delete_ne in Hb' by congruence. exact Hb'.
+Qed.
+
+Lemma svc_destroyed_fold cookie l m :
+  foldr (fun c m => if has m c then m <| mw; w_svc_destroyed ::= cons (c, cookie) |> else m) m l =
+  m <| mw; w_svc_destroyed ::= app ((fun x => (x, cookie)) <$> List.filter (connected (ms m)) l) |>.
+Proof.
+  induction l as [|x l IH]; cbn [foldr List.filter].
+  - destruct m as [? [] ?]; reflexivity.
+  - rewrite IH. unfold has, connected. cbn [ms set].
+    destruct (bool_decide (is_Some (conns (ms m) !! x))); reflexivity.
+Qed.
+
+(* C04_service_destroyed / C02_destroyed, the queueing half: destroying a service deletes it (so
+   every subscription to it ends) together with its pending calls, and queues exactly one
+   ServiceDestroyed per connected target and one InvalidService reply per non-aborted call *)
+Theorem remove_service_spec m cookie k sv m' :
+  svc_by_cookie (ms m) cookie = Some (k, sv) -> remove_service m cookie = Done m' ->
+  svcs (ms m') = delete k (svcs (ms m)) /\
+  (forall b, calls (ms m') !! b = if bool_decide (b ∈ s_calls sv) then None else calls (ms m) !! b) /\
+  w_rm_call (mw m') = rev (omap (rm_call_entry (ms m)) (elements (s_calls sv))) ++ w_rm_call (mw m) /\
+  w_svc_destroyed (mw m') =
+    ((fun x => (x, cookie)) <$> List.filter (connected (ms m)) (elements (destroyed_targets sv))) ++ w_svc_destroyed (mw m) /\
+  w_destroy_svc (mw m') = (k.1, s_obj_cookie sv, k.2, s_cookie sv) :: w_destroy_svc (mw m) /\
+  m' = m <| ms; svcs := svcs (ms m') |> <| ms; calls := calls (ms m') |> <| ms; st; n_svcs ::= sat_sub1 |>
+         <| mw; w_rm_call := w_rm_call (mw m') |> <| mw; w_svc_destroyed := w_svc_destroyed (mw m') |>
+         <| mw; w_destroy_svc := w_destroy_svc (mw m') |> /\
+  Forall (fun b => is_Some (calls (ms m) !! b)) (elements (s_calls sv)).
+Proof.
+  intros Hs. unfold remove_service. rewrite Hs. fold rm_call_f.
+  destruct (foldO rm_call_f _ _) as [m2|m2|] eqn:Ef; cbn [andThen]; try discriminate.
+  apply rm_calls_fold in Ef as (H1 & H2 & H3 & H4); [|apply NoDup_elements].
+  fold (event_subscribers sv). fold (destroyed_targets sv). rewrite svc_destroyed_fold.
+  intros [= <-]. cbn in H1, H2, H3, H4. cbn [ms mw set].
+  assert (Hcon : connected (ms m2) = connected (ms m)) by (rewrite H3; reflexivity).
+  split; [|split; [|split; [|split; [|split; [|split]]]]].
+  - rewrite H3. reflexivity.
+  - intros b. cbn. rewrite H1. destruct (bool_decide_reflect (b ∈ elements (s_calls sv))) as [Hin|Hnin].
+    + rewrite bool_decide_eq_true_2; [reflexivity|]. apply elem_of_elements. exact Hin.
+    + rewrite bool_decide_eq_false_2; [reflexivity|]. intros Hx. apply Hnin, elem_of_elements. exact Hx.
+  - cbn. exact H2.
+  - cbn. rewrite Hcon. f_equal. rewrite H3. reflexivity.
+  - cbn. rewrite H3. reflexivity.
+  - clear -H3. destruct m as [[] [] ?], m2 as [[] [] ?]. cbn in H3. injection H3; intros; subst. reflexivity.
+  - exact H4.
+Qed.
+
+(* the service is gone: no lookup by its cookie's key, hence no subscription to it *)
+Corollary remove_service_deleted m cookie k sv m' :
+  svc_by_cookie (ms m) cookie = Some (k, sv) -> remove_service m cookie = Done m' ->
+  svcs (ms m') !! k = None.
+Proof. intros Hs H. destruct (remove_service_spec _ _ _ _ _ Hs H) as (-> & _). apply lookup_delete. Qed.
+
+Lemma remove_service_unknown m cookie : svc_by_cookie (ms m) cookie = None -> remove_service m cookie = Done m.
+Proof. intros H. unfold remove_service. rewrite H. reflexivity. Qed.
+
+(* who is in the queue *)
+Lemma destroyed_targets_spec sv x :
+  x ∈ destroyed_targets sv <-> x ∈ s_subs sv \/ exists e set, s_events sv !! e = Some set /\ x ∈ set.
+Proof. unfold destroyed_targets. rewrite elem_of_union, event_subscribers_spec. reflexivity. Qed.
+
+(* ---------------------------------------------------------------- the work loop's side *)
+(* each queued ServiceDestroyed entry is turned into exactly one message (if the connection is
+   still there), once the connection removals and unsubscribe notices queued before are done *)
+Lemma settle_one_svc_destroyed m x sc r :
+  w_remove_conns (mw m) = [] -> w_unsub_ev (mw m) = [] -> w_unsub_all (mw m) = [] ->
+  w_svc_destroyed (mw m) = (x, sc) :: r ->
+  settle_one m =
+    Some (let m' := m <| mw; w_svc_destroyed := r |> in
+          if has m' x then send_or_remove m' x (ServiceDestroyed sc) None else Done m').
+Proof. intros H1 H2 H3 H4. unfold settle_one. rewrite H1, H2, H3, H4. reflexivity. Qed.
+
+Lemma settle_one_unsub_ev m o sc e r :
+  w_remove_conns (mw m) = [] -> w_unsub_ev (mw m) = (o, sc, e) :: r ->
+  settle_one m =
+    Some (let m' := m <| mw; w_unsub_ev := r |> in
+          if has m' o then send_or_remove m' o (UnsubscribeEvent sc e) None else Done m').
+Proof. intros H1 H2. unfold settle_one. rewrite H1, H2. reflexivity. Qed.
+
+Lemma settle_one_unsub_all m o sc r :
+  w_remove_conns (mw m) = [] -> w_unsub_ev (mw m) = [] -> w_unsub_all (mw m) = (o, sc) :: r ->
+  settle_one m =
+    Some (let m' := m <| mw; w_unsub_all := r |> in
+          if has m' o then send_or_remove m' o (UnsubscribeAllEvents None sc) None else Done m').
+Proof. intros H1 H2 H3. unfold settle_one. rewrite H1, H2, H3. reflexivity. Qed.
+
+(* for an alive destination that is exactly one output and nothing else *)
+Lemma settle_one_svc_destroyed_alive m x sc r xs :
+  w_remove_conns (mw m) = [] -> w_unsub_ev (mw m) = [] -> w_unsub_all (mw m) = [] ->
+  w_svc_destroyed (mw m) = (x, sc) :: r -> conns (ms m) !! x = Some xs -> cs_alive xs = true ->
+  settle_one m = Some (Done (m <| mw; w_svc_destroyed := r |> <| mo := mo m ++ [(x, ServiceDestroyed sc, None)] |>)).
+Proof.
+  intros H1 H2 H3 H4 Hx Ha. rewrite (settle_one_svc_destroyed m x sc r) by assumption. cbv zeta.
+  unfold has. cbn [ms set]. rewrite bool_decide_eq_true_2 by (rewrite Hx; eauto).
+  erewrite send_or_remove_alive by (try exact Ha; cbn; exact Hx). reflexivity.
+Qed.
+
+(* ---------------------------------------------------------------- 0<->1 transitions: disconnect *)
+(* the two subscription passes of Broker::shutdown_connection, named *)
+Definition unsub_event_one (c owner : conn) (k : uuid * uuid) (m : M) (e : N) : M :=
+  match svcs (ms m) !! k with
+  | Some s =>
+      let set := default ∅ (s_events s !! e) ∖ {[c]} in
+      if bool_decide (set = ∅)
+      then m <| ms; svcs ::= <[k := s <| s_events ::= delete e |>]> |>
+             <| mw; w_unsub_ev ::= cons (owner, s_cookie s, e) |>
+      else m <| ms; svcs ::= <[k := s <| s_events ::= <[e := set]> |>]> |>
+  | None => m
+  end.
+
+(* the event ids of a service that [c] is subscribed to, in the map's order *)
+Definition subscribed_events (c : conn) (sv : svc) : list N :=
+  (fun p : N * gset conn => p.1) <$>
+    List.filter (fun p : N * gset conn => bool_decide (c ∈ p.2)) (map_to_list (s_events sv)).
+
+Definition unsub_events_svc (c : conn) (m : M) (k : uuid * uuid) : outcome M :=
+  match svcs (ms m) !! k, owner_of_svc (ms m) k with
+  | Some s, Some owner => Done (foldl (unsub_event_one c owner k) m (subscribed_events c s))
+  | Some _, None => Panic 12
+  | None, _ => Done m
+  end.
+
+Definition svc_keys (m : M) : list (uuid * uuid) := (fun p : uuid * uuid * svc => p.1) <$> map_to_list (svcs (ms m)).
+
+Definition unsub_events_pass (c : conn) (m : M) : outcome M := foldO (unsub_events_svc c) (svc_keys m) m.
+
+Definition unsub_all_svc (c : conn) (m : M) (k : uuid * uuid) : outcome M :=
+  match svcs (ms m) !! k, owner_of_svc (ms m) k with
+  | Some s, Some owner =>
+      if bool_decide (c ∈ s_all s) then
+        let all' := s_all s ∖ {[c]} in
+        let m' := m <| ms; svcs ::= <[k := s <| s_all := all' |>]> |> in
+        Done (if bool_decide (all' = ∅) then m' <| mw; w_unsub_all ::= cons (owner, s_cookie s) |> else m')
+      else Done m
+  | Some _, None => Panic 13
+  | None, _ => Done m
+  end.
+
+Definition unsub_all_pass (c : conn) (m : M) : outcome M := foldO (unsub_all_svc c) (svc_keys m) m.
+
+(* Broker::shutdown_connection with the two passes named *)
+Lemma shutdown_conn_unfold m c sd :
+  shutdown_conn m c sd =
+  match conns (ms m) !! c with
+  | None => Done m
+  | Some cs =>
+      let m0 := m <| ms; conns ::= delete c |> in
+      let m1 := if sd && cs_alive cs then m0 <| mo := mo m0 ++ [(c, Shutdown, None)] |> else m0 in
+      let ls := (fun p => p.1) <$> List.filter (fun p => bool_decide (l_owner p.2 = c)) (map_to_list (listeners (ms m1))) in
+      let m2 := foldl remove_listener m1 ls in
+      let owned := (fun p => o_cookie p.2) <$> List.filter (fun p => bool_decide (o_owner p.2 = c)) (map_to_list (objs (ms m2))) in
+      foldO remove_object owned m2 >>> fun m3 =>
+      unsub_events_pass c m3 >>> fun m4 =>
+      unsub_all_pass c m4 >>> fun m5 =>
+      let m6 := m5 <| ms; svcs ::= fmap (fun s => s <| s_subs ::= fun x => x ∖ {[c]} |>) |> in
+      let cks := (fun p => p.1) <$> map_to_list (chans (ms m6)) in
+      foldO (fun m k => match chans (ms m) !! k with
+                        | Some ch => match ch_s ch with
+                                     | Claimed o _ => if bool_decide (o = c) then remove_end m k ESender else Done m
+                                     | _ => Done m end
+                        | None => Done m end) cks m6 >>> fun m7 =>
+      foldO (fun m k => match chans (ms m) !! k with
+                        | Some ch => match ch_r ch with
+                                     | Claimed o _ => if bool_decide (o = c) then remove_end m k EReceiver else Done m
+                                     | _ => Done m end
+                        | None => Done m end) cks m7 >>> fun m8 =>
+      let m9 := foldr (fun p m => m <| mw; w_abort ::= cons p.2 |>) m8 (map_to_list (cs_calls cs)) in
+      Done (m9 <| ms; st; n_conns ::= sat_sub1 |>)
+  end.
+Proof. reflexivity. Qed.
+
+(* what removing [c] does to one event's subscriber set: the entry disappears when [c] was the
+   last subscriber *)
+Definition drop_sub (c : conn) (set : gset conn) : option (gset conn) :=
+  if bool_decide (c ∈ set) then (if bool_decide (set ∖ {[c]} = ∅) then None else Some (set ∖ {[c]}))
+  else Some set.
+Definition svc_drop_events (c : conn) (sv : svc) : svc := sv <| s_events ::= omap (drop_sub c) |>.
+
+(* the events of a service whose subscriber set becomes empty by removing [c] *)
+Definition last_sub_events (c : conn) (sv : svc) : list N :=
+  List.filter (fun e => bool_decide (default ∅ (s_events sv !! e) ∖ {[c]} = ∅)) (subscribed_events c sv).
+
+Lemma subscribed_events_spec c sv e :
+  e ∈ subscribed_events c sv <-> exists set, s_events sv !! e = Some set /\ c ∈ set.
+Proof.
+  unfold subscribed_events. rewrite elem_of_list_fmap. split.
+  - intros ([e' set] & -> & H). apply elem_of_list_In, filter_In in H as [H1 H2].
+    apply elem_of_list_In, elem_of_map_to_list in H1. apply bool_decide_eq_true_1 in H2. eauto.
+  - intros (set & H1 & H2). exists (e, set). split; [reflexivity|].
+    apply elem_of_list_In, filter_In. split.
+    + apply elem_of_list_In, elem_of_map_to_list. exact H1.
+    + apply bool_decide_eq_true_2. exact H2.
+Qed.
+
+Lemma NoDup_list_filter' {A} (p : A -> bool) l : NoDup l -> NoDup (List.filter p l).
+Proof. apply NoDup_list_filter. Qed.
+
+Lemma fmap_list_filter_fst {A B} (p : A * B -> bool) (l : list (A * B)) :
+  NoDup (l.*1) -> NoDup ((List.filter p l).*1).
+Proof.
+  induction l as [|[a b] l IH]; cbn; [constructor|]. intros Hnd. apply NoDup_cons in Hnd as [Ha Hnd].
+  destruct (p (a, b)); cbn; [|apply IH, Hnd]. apply NoDup_cons. split; [|apply IH, Hnd].
+  intros Hin. apply Ha. apply elem_of_list_fmap in Hin as ([a' b'] & -> & Hin).
+  apply elem_of_list_fmap. exists (a', b'). split; [reflexivity|].
+  apply elem_of_list_In, filter_In in Hin as [Hin _]. apply elem_of_list_In. exact Hin.
+Qed.
+
+Lemma subscribed_events_NoDup c sv : NoDup (subscribed_events c sv).
+Proof. unfold subscribed_events. apply (fmap_list_filter_fst _ (map_to_list (s_events sv))), NoDup_fst_map_to_list. Qed.
+
+Lemma last_sub_events_spec c sv e :
+  e ∈ last_sub_events c sv <-> exists set, s_events sv !! e = Some set /\ c ∈ set /\ set ∖ {[c]} = ∅.
+Proof.
+  unfold last_sub_events. rewrite elem_of_list_In, filter_In, <- elem_of_list_In, subscribed_events_spec. split.
+  - intros ((set & H1 & H2) & H3). rewrite H1 in H3. apply bool_decide_eq_true_1 in H3. eauto.
+  - intros (set & H1 & H2 & H3). split; [eauto|]. rewrite H1. apply bool_decide_eq_true_2. exact H3.
+Qed.
+
+(* the inner loop over one service's events *)
+Lemma unsub_event_fold c owner k evs : NoDup evs -> forall m s,
+  svcs (ms m) !! k = Some s ->
+  let m' := foldl (unsub_event_one c owner k) m evs in
+  exists E',
+    (forall e, E' !! e = if bool_decide (e ∈ evs)
+                        then (let set := default ∅ (s_events s !! e) ∖ {[c]} in
+                              if bool_decide (set = ∅) then None else Some set)
+                        else s_events s !! e) /\
+    svcs (ms m') = <[k := s <| s_events := E' |>]> (svcs (ms m)) /\
+    w_unsub_ev (mw m') =
+      rev ((fun e => (owner, s_cookie s, e)) <$>
+           List.filter (fun e => bool_decide (default ∅ (s_events s !! e) ∖ {[c]} = ∅)) evs) ++ w_unsub_ev (mw m) /\
+    m' = m <| ms; svcs := svcs (ms m') |> <| mw; w_unsub_ev := w_unsub_ev (mw m') |>.
+Proof.
+  induction 1 as [|e evs He Hnd IH]; intros m s Hk; cbn [foldl].
+  - exists (s_events s). split; [|split; [|split]].
+    + intros e. rewrite bool_decide_eq_false_2; [reflexivity|apply not_elem_of_nil].
+    + rewrite insert_id; [reflexivity|]. rewrite Hk. destruct s; reflexivity.
+    + reflexivity.
+    + destruct m as [[] [] ?]; reflexivity.
+  - set (m1 := unsub_event_one c owner k m e).
+    set (set0 := default ∅ (s_events s !! e) ∖ {[c]}).
+    set (E1 := if bool_decide (set0 = ∅) then delete e (s_events s) else <[e := set0]> (s_events s)).
+    assert (H1 : svcs (ms m1) = <[k := s <| s_events := E1 |>]> (svcs (ms m))).
+    { subst m1 E1. unfold unsub_event_one. rewrite Hk. fold set0. destruct (bool_decide (set0 = ∅)); reflexivity. }
+    assert (H1k : svcs (ms m1) !! k = Some (s <| s_events := E1 |>)) by (rewrite H1; apply lookup_insert).
+    destruct (IH m1 _ H1k) as (E' & HE & Hs & Hw & Hf). clear IH. cbn [s_events s_cookie set] in HE, Hw.
+    assert (Hne : forall e', e' ∈ evs -> E1 !! e' = s_events s !! e').
+    { intros e' Hin. assert (e <> e') by (intros ->; exact (He Hin)). subst E1.
+      destruct (bool_decide (set0 = ∅)); [apply lookup_delete_ne|apply lookup_insert_ne]; assumption. }
+    exists E'. split; [|split; [|split]].
+    + intros e'. rewrite HE. destruct (decide (e' = e)) as [->|Hne'].
+      * rewrite (bool_decide_eq_false_2 (e ∈ evs)) by exact He.
+        rewrite (bool_decide_eq_true_2 (e ∈ e :: evs)) by left. cbv zeta. fold set0. subst E1.
+        destruct (bool_decide (set0 = ∅)); [apply lookup_delete|apply lookup_insert].
+      * destruct (bool_decide_reflect (e' ∈ evs)) as [Hin|Hnin].
+        -- rewrite (bool_decide_eq_true_2 (e' ∈ e :: evs)) by (right; exact Hin). rewrite (Hne e' Hin). reflexivity.
+        -- rewrite (bool_decide_eq_false_2 (e' ∈ e :: evs)).
+           ++ subst E1. destruct (bool_decide (set0 = ∅)); [apply lookup_delete_ne|apply lookup_insert_ne]; congruence.
+           ++ intros Hx. apply elem_of_cons in Hx as [?|?]; auto.
+    + rewrite Hs, H1, insert_insert. reflexivity.
+    + rewrite Hw. cbn [List.filter]. fold set0.
+      assert (Hfl : List.filter (fun e0 => bool_decide (default ∅ (E1 !! e0) ∖ {[c]} = ∅)) evs =
+                    List.filter (fun e0 => bool_decide (default ∅ (s_events s !! e0) ∖ {[c]} = ∅)) evs).
+      { clear -Hne. induction evs as [|e' evs IH]; cbn; [reflexivity|].
+        rewrite (Hne e') by left. rewrite IH; [reflexivity|]. intros e'' Hin. apply Hne. right. exact Hin. }
+      rewrite Hfl. subst m1. unfold unsub_event_one. rewrite Hk. fold set0.
+      destruct (bool_decide (set0 = ∅)); cbn; [|reflexivity]. rewrite <- app_assoc. reflexivity.
+    + rewrite Hf at 1. subst m1. unfold unsub_event_one. rewrite Hk. fold set0.
+      destruct (bool_decide (set0 = ∅)); reflexivity.
+Qed.
+
+(* one service *)
+Lemma unsub_events_svc_spec c m k m' : unsub_events_svc c m k = Done m' ->
+  svcs (ms m') = match svcs (ms m) !! k with
+                 | Some sv => <[k := svc_drop_events c sv]> (svcs (ms m))
+                 | None => svcs (ms m) end /\
+  w_unsub_ev (mw m') =
+    rev (match svcs (ms m) !! k, owner_of_svc (ms m) k with
+         | Some sv, Some o => (fun e => (o, s_cookie sv, e)) <$> last_sub_events c sv
+         | _, _ => [] end) ++ w_unsub_ev (mw m) /\
+  m' = m <| ms; svcs := svcs (ms m') |> <| mw; w_unsub_ev := w_unsub_ev (mw m') |>.
+Proof.
+  unfold unsub_events_svc. destruct (svcs (ms m) !! k) as [sv|] eqn:Ek.
+  - destruct (owner_of_svc (ms m) k) as [o|]; [|discriminate]. intros [= <-].
+    destruct (unsub_event_fold c o k _ (subscribed_events_NoDup c sv) m sv Ek) as (E' & HE & Hs & Hw & Hf).
+    cbv zeta in Hs, Hw, Hf. split; [|split].
+    + assert (HE' : E' = omap (drop_sub c) (s_events sv)).
+      { apply map_eq. intros e. rewrite HE, lookup_omap.
+        destruct (s_events sv !! e) as [set|] eqn:Ee; cbn.
+        - unfold drop_sub. destruct (bool_decide_reflect (c ∈ set)) as [Hin|Hnin].
+          + rewrite bool_decide_eq_true_2; [reflexivity|]. apply subscribed_events_spec. eauto.
+          + rewrite bool_decide_eq_false_2; [reflexivity|]. intros Hx.
+            apply subscribed_events_spec in Hx as (set' & Hx1 & Hx2). congruence.
+        - rewrite bool_decide_eq_false_2; [reflexivity|]. intros Hx.
+          apply subscribed_events_spec in Hx as (set' & Hx1 & Hx2). congruence. }
+      rewrite Hs, HE'. reflexivity.
+    + rewrite Hw. reflexivity.
+    + exact Hf.
+  - intros [= <-]. split; [reflexivity|]. split; [reflexivity|]. destruct m as [[] [] ?]; reflexivity.
+Qed.
+
+(* the entries the whole pass queues, per service key *)
+Definition unsub_ev_entries (c : conn) (s : state) (k : uuid * uuid) : list (conn * uuid * N) :=
+  match svcs s !! k, owner_of_svc s k with
+  | Some sv, Some o => (fun e => (o, s_cookie sv, e)) <$> last_sub_events c sv
+  | _, _ => []
+  end.
+
+Lemma flat_map_ext_in {A B} (f g : A -> list B) l : (forall a, a ∈ l -> f a = g a) -> flat_map f l = flat_map g l.
+Proof.
+  induction l as [|a l IH]; cbn; intros H; [reflexivity|]. rewrite (H a) by left. rewrite IH; [reflexivity|].
+  intros a' Ha'. apply H. right. exact Ha'.
+Qed.
+
+Lemma unsub_events_fold c l : NoDup l -> forall m m', foldO (unsub_events_svc c) l m = Done m' ->
+  (forall k, svcs (ms m') !! k = if bool_decide (k ∈ l) then svc_drop_events c <$> svcs (ms m) !! k
+                                 else svcs (ms m) !! k) /\
+  w_unsub_ev (mw m') = rev (flat_map (unsub_ev_entries c (ms m)) l) ++ w_unsub_ev (mw m) /\
+  m' = m <| ms; svcs := svcs (ms m') |> <| mw; w_unsub_ev := w_unsub_ev (mw m') |>.
+Proof.
+  induction 1 as [|k l Hk Hnd IH]; intros m m'; cbn [foldO].
+  - intros [= <-]. split; [|split].
+    + intros k. rewrite bool_decide_eq_false_2; [reflexivity|apply not_elem_of_nil].
+    + reflexivity.
+    + destruct m as [[] [] ?]; reflexivity.
+  - destruct (unsub_events_svc c m k) as [m1|m1|] eqn:E1; try discriminate.
+    apply unsub_events_svc_spec in E1 as (Hs1 & Hw1 & Hf1). intros H. apply IH in H as (Hs & Hw & Hf). clear IH.
+    assert (Hobjs : objs (ms m1) = objs (ms m)) by (rewrite Hf1; reflexivity).
+    assert (Hother : forall k', k' <> k -> svcs (ms m1) !! k' = svcs (ms m) !! k').
+    { intros k' Hne. rewrite Hs1. destruct (svcs (ms m) !! k); [apply lookup_insert_ne; congruence|reflexivity]. }
+    split; [|split].
+    + intros k'. rewrite Hs. destruct (decide (k' = k)) as [->|Hne].
+      * rewrite (bool_decide_eq_false_2 (k ∈ l)) by exact Hk. rewrite (bool_decide_eq_true_2 (k ∈ k :: l)) by left.
+        rewrite Hs1. destruct (svcs (ms m) !! k) eqn:Ek; [rewrite lookup_insert; reflexivity|rewrite Ek; reflexivity].
+      * rewrite (Hother k' Hne). destruct (bool_decide_reflect (k' ∈ l)) as [Hin|Hnin].
+        -- rewrite (bool_decide_eq_true_2 (k' ∈ k :: l)) by (right; exact Hin). reflexivity.
+        -- rewrite (bool_decide_eq_false_2 (k' ∈ k :: l)); [reflexivity|].
+           intros Hx. apply elem_of_cons in Hx as [?|?]; auto.
+    + rewrite Hw, Hw1. cbn [flat_map]. rewrite rev_app_distr, <- app_assoc. f_equal.
+      * f_equal. apply flat_map_ext_in. intros k' Hin. assert (k' <> k) by (intros ->; exact (Hk Hin)).
+        unfold unsub_ev_entries, owner_of_svc. rewrite Hobjs, (Hother k') by assumption. reflexivity.
+    + rewrite Hf at 1. rewrite Hf1 at 1. reflexivity.
+Qed.
+
+(* C04_transitions on disconnect, events: the pass removes [c] from every event's subscriber set
+   of every service, drops the sets that become empty, and queues an UnsubscribeEvent notice to
+   the owner for exactly those *)
+Theorem unsub_events_pass_spec c m m' : unsub_events_pass c m = Done m' ->
+  svcs (ms m') = svc_drop_events c <$> svcs (ms m) /\
+  w_unsub_ev (mw m') = rev (flat_map (unsub_ev_entries c (ms m)) (svc_keys m)) ++ w_unsub_ev (mw m) /\
+  m' = m <| ms; svcs := svcs (ms m') |> <| mw; w_unsub_ev := w_unsub_ev (mw m') |>.
+Proof.
+  unfold unsub_events_pass. intros H. apply unsub_events_fold in H as (Hs & Hw & Hf).
+  - split; [|split; assumption]. apply map_eq. intros k. rewrite Hs, lookup_fmap.
+    destruct (bool_decide_reflect (k ∈ svc_keys m)) as [Hin|Hnin]; [reflexivity|].
+    destruct (svcs (ms m) !! k) as [sv|] eqn:Ek; [|reflexivity]. exfalso. apply Hnin.
+    unfold svc_keys. apply elem_of_list_fmap. exists (k, sv). split; [reflexivity|]. apply elem_of_map_to_list. exact Ek.
+  - unfold svc_keys. apply NoDup_fst_map_to_list.
+Qed.
+
+(* who is in that queue: one entry per (service, event) whose only subscriber was [c] *)
+Lemma unsub_ev_entries_spec c s l o sc e :
+  (o, sc, e) ∈ flat_map (unsub_ev_entries c s) l <->
+  exists k sv set, k ∈ l /\ svcs s !! k = Some sv /\ owner_of_svc s k = Some o /\ s_cookie sv = sc /\
+                   s_events sv !! e = Some set /\ c ∈ set /\ set ∖ {[c]} = ∅.
+Proof.
+  rewrite elem_of_list_In, in_flat_map. split.
+  - intros (k & Hk & Hin). apply elem_of_list_In in Hk. apply elem_of_list_In in Hin. unfold unsub_ev_entries in Hin.
+    destruct (svcs s !! k) as [sv|] eqn:Ek; [|apply elem_of_nil in Hin; contradiction].
+    destruct (owner_of_svc s k) as [o'|] eqn:Eo; [|apply elem_of_nil in Hin; contradiction].
+    apply elem_of_list_fmap in Hin as (e' & [= -> -> ->] & Hin). apply last_sub_events_spec in Hin as (set & H1 & H2 & H3).
+    exists k, sv, set. auto 10.
+  - intros (k & sv & set & Hk & Ek & Eo & <- & H1 & H2 & H3). exists k. split; [apply elem_of_list_In, Hk|].
+    apply elem_of_list_In. unfold unsub_ev_entries. rewrite Ek, Eo. apply elem_of_list_fmap. exists e. split; [reflexivity|].
+    apply last_sub_events_spec. eauto.
+Qed.
+
+(* the all-events pass *)
+Definition svc_drop_all (c : conn) (sv : svc) : svc := sv <| s_all ::= fun x => x ∖ {[c]} |>.
+
+Definition unsub_all_entries (c : conn) (s : state) (k : uuid * uuid) : list (conn * uuid) :=
+  match svcs s !! k, owner_of_svc s k with
+  | Some sv, Some o =>
+      if bool_decide (c ∈ s_all sv) && bool_decide (s_all sv ∖ {[c]} = ∅) then [(o, s_cookie sv)] else []
+  | _, _ => []
+  end.
+
+Lemma unsub_all_svc_spec c m k m' : unsub_all_svc c m k = Done m' ->
+  svcs (ms m') = match svcs (ms m) !! k with
+                 | Some sv => <[k := svc_drop_all c sv]> (svcs (ms m))
+                 | None => svcs (ms m) end /\
+  w_unsub_all (mw m') = rev (unsub_all_entries c (ms m) k) ++ w_unsub_all (mw m) /\
+  m' = m <| ms; svcs := svcs (ms m') |> <| mw; w_unsub_all := w_unsub_all (mw m') |>.
+Proof.
+  unfold unsub_all_svc, unsub_all_entries. destruct (svcs (ms m) !! k) as [sv|] eqn:Ek.
+  - destruct (owner_of_svc (ms m) k) as [o|]; [|discriminate].
+    destruct (bool_decide_reflect (c ∈ s_all sv)) as [Hin|Hnin]; cbn [andb].
+    + intros [= <-]. destruct (bool_decide (s_all sv ∖ {[c]} = ∅)); (split; [|split]); try reflexivity;
+        destruct m as [[] [] ?]; reflexivity.
+    + intros [= <-]. split; [|split].
+      * rewrite insert_id; [reflexivity|]. rewrite Ek. f_equal. unfold svc_drop_all.
+        assert (Hd : s_all sv ∖ {[c]} = s_all sv) by set_solver.
+        destruct sv as [a1 a2 a3 a4 a5 a6 a7]. cbn in Hd.
+        change (Build_svc a1 a2 a3 a4 a5 a6 a7 = Build_svc a1 a2 a3 a4 (a5 ∖ {[c]}) a6 a7). rewrite Hd. reflexivity.
+      * reflexivity.
+      * destruct m as [[] [] ?]; reflexivity.
+  - intros [= <-]. split; [reflexivity|]. split; [reflexivity|]. destruct m as [[] [] ?]; reflexivity.
+Qed.
+
+Lemma unsub_all_fold c l : NoDup l -> forall m m', foldO (unsub_all_svc c) l m = Done m' ->
+  (forall k, svcs (ms m') !! k = if bool_decide (k ∈ l) then svc_drop_all c <$> svcs (ms m) !! k
+                                 else svcs (ms m) !! k) /\
+  w_unsub_all (mw m') = rev (flat_map (unsub_all_entries c (ms m)) l) ++ w_unsub_all (mw m) /\
+  m' = m <| ms; svcs := svcs (ms m') |> <| mw; w_unsub_all := w_unsub_all (mw m') |>.
+Proof.
+  induction 1 as [|k l Hk Hnd IH]; intros m m'; cbn [foldO].
+  - intros [= <-]. split; [|split].
+    + intros k. rewrite bool_decide_eq_false_2; [reflexivity|apply not_elem_of_nil].
+    + reflexivity.
+    + destruct m as [[] [] ?]; reflexivity.
+  - destruct (unsub_all_svc c m k) as [m1|m1|] eqn:E1; try discriminate.
+    apply unsub_all_svc_spec in E1 as (Hs1 & Hw1 & Hf1). intros H. apply IH in H as (Hs & Hw & Hf). clear IH.
+    assert (Hobjs : objs (ms m1) = objs (ms m)) by (rewrite Hf1; reflexivity).
+    assert (Hother : forall k', k' <> k -> svcs (ms m1) !! k' = svcs (ms m) !! k').
+    { intros k' Hne. rewrite Hs1. destruct (svcs (ms m) !! k); [apply lookup_insert_ne; congruence|reflexivity]. }
+    split; [|split].
+    + intros k'. rewrite Hs. destruct (decide (k' = k)) as [->|Hne].
+      * rewrite (bool_decide_eq_false_2 (k ∈ l)) by exact Hk. rewrite (bool_decide_eq_true_2 (k ∈ k :: l)) by left.
+        rewrite Hs1. destruct (svcs (ms m) !! k) eqn:Ek; [rewrite lookup_insert; reflexivity|rewrite Ek; reflexivity].
+      * rewrite (Hother k' Hne). destruct (bool_decide_reflect (k' ∈ l)) as [Hin|Hnin].
+        -- rewrite (bool_decide_eq_true_2 (k' ∈ k :: l)) by (right; exact Hin). reflexivity.
+        -- rewrite (bool_decide_eq_false_2 (k' ∈ k :: l)); [reflexivity|].
+           intros Hx. apply elem_of_cons in Hx as [?|?]; auto.
+    + rewrite Hw, Hw1. cbn [flat_map]. rewrite rev_app_distr, <- app_assoc. f_equal.
+      * f_equal. apply flat_map_ext_in. intros k' Hin. assert (k' <> k) by (intros ->; exact (Hk Hin)).
+        unfold unsub_all_entries, owner_of_svc. rewrite Hobjs, (Hother k') by assumption. reflexivity.
+    + rewrite Hf at 1. rewrite Hf1 at 1. reflexivity.
+Qed.
+
+(* C04_transitions on disconnect, all-events: [c] leaves every all-events set; the owner of each
+   service whose set becomes empty by that gets one UnsubscribeAllEvents notice queued *)
+Theorem unsub_all_pass_spec c m m' : unsub_all_pass c m = Done m' ->
+  svcs (ms m') = svc_drop_all c <$> svcs (ms m) /\
+  w_unsub_all (mw m') = rev (flat_map (unsub_all_entries c (ms m)) (svc_keys m)) ++ w_unsub_all (mw m) /\
+  m' = m <| ms; svcs := svcs (ms m') |> <| mw; w_unsub_all := w_unsub_all (mw m') |>.
+Proof.
+  unfold unsub_all_pass. intros H. apply unsub_all_fold in H as (Hs & Hw & Hf).
+  - split; [|split; assumption]. apply map_eq. intros k. rewrite Hs, lookup_fmap.
+    destruct (bool_decide_reflect (k ∈ svc_keys m)) as [Hin|Hnin]; [reflexivity|].
+    destruct (svcs (ms m) !! k) as [sv|] eqn:Ek; [|reflexivity]. exfalso. apply Hnin.
+    unfold svc_keys. apply elem_of_list_fmap. exists (k, sv). split; [reflexivity|]. apply elem_of_map_to_list. exact Ek.
+  - unfold svc_keys. apply NoDup_fst_map_to_list.
+Qed.
+
+Lemma unsub_all_entries_spec c s l o sc :
+  (o, sc) ∈ flat_map (unsub_all_entries c s) l <->
+  exists k sv, k ∈ l /\ svcs s !! k = Some sv /\ owner_of_svc s k = Some o /\ s_cookie sv = sc /\
+               c ∈ s_all sv /\ s_all sv ∖ {[c]} = ∅.
+Proof.
+  rewrite elem_of_list_In, in_flat_map. split.
+  - intros (k & Hk & Hin). apply elem_of_list_In in Hk. apply elem_of_list_In in Hin. unfold unsub_all_entries in Hin.
+    destruct (svcs s !! k) as [sv|] eqn:Ek; [|apply elem_of_nil in Hin; contradiction].
+    destruct (owner_of_svc s k) as [o'|] eqn:Eo; [|apply elem_of_nil in Hin; contradiction].
+    destruct (bool_decide_reflect (c ∈ s_all sv)) as [H1|H1]; cbn [andb] in Hin; [|apply elem_of_nil in Hin; contradiction].
+    destruct (bool_decide_reflect (s_all sv ∖ {[c]} = ∅)) as [H2|H2]; [|apply elem_of_nil in Hin; contradiction].
+    apply elem_of_list_singleton in Hin as [= -> ->]. exists k, sv. auto 10.
+  - intros (k & sv & Hk & Ek & Eo & <- & H1 & H2). exists k. split; [apply elem_of_list_In, Hk|].
+    apply elem_of_list_In. unfold unsub_all_entries. rewrite Ek, Eo.
+    rewrite (bool_decide_eq_true_2 _ H1), (bool_decide_eq_true_2 _ H2). cbn. left.
+Qed.
+
+(* the work loop turns each queued notice into one message to the owner, if it is connected *)
+Lemma settle_one_unsub_ev_alive m o sc e r os :
+  w_remove_conns (mw m) = [] -> w_unsub_ev (mw m) = (o, sc, e) :: r ->
+  conns (ms m) !! o = Some os -> cs_alive os = true ->
+  settle_one m = Some (Done (m <| mw; w_unsub_ev := r |> <| mo := mo m ++ [(o, UnsubscribeEvent sc e, None)] |>)).
+Proof.
+  intros H1 H2 Hx Ha. rewrite (settle_one_unsub_ev m o sc e r) by assumption. cbv zeta.
+  unfold has. cbn [ms set]. rewrite bool_decide_eq_true_2 by (rewrite Hx; eauto).
+  erewrite send_or_remove_alive by (try exact Ha; cbn; exact Hx). reflexivity.
+Qed.
+
+Lemma settle_one_unsub_all_alive m o sc r os :
+  w_remove_conns (mw m) = [] -> w_unsub_ev (mw m) = [] -> w_unsub_all (mw m) = (o, sc) :: r ->
+  conns (ms m) !! o = Some os -> cs_alive os = true ->
+  settle_one m = Some (Done (m <| mw; w_unsub_all := r |> <| mo := mo m ++ [(o, UnsubscribeAllEvents None sc, None)] |>)).
+Proof.
+  intros H1 H2 H3 Hx Ha. rewrite (settle_one_unsub_all m o sc r) by assumption. cbv zeta.
+  unfold has. cbn [ms set]. rewrite bool_decide_eq_true_2 by (rewrite Hx; eauto).
+  erewrite send_or_remove_alive by (try exact Ha; cbn; exact Hx). reflexivity.
+Qed.
+
+(* ---------------------------------------------------------------- the disconnect as a whole *)
+(* the parts of shutdown_connection around the two passes leave the unsubscribe queues alone *)
+Definition frame_unsub (A : list (conn * uuid * N)) (B : list (conn * uuid)) (m : M) : Prop :=
+  w_unsub_ev (mw m) = A /\ w_unsub_all (mw m) = B.
+
+Lemma remove_end_frame_unsub A B m k e : frame_unsub A B m -> oprop (frame_unsub A B) (remove_end m k e).
+Proof. intros H. unfold remove_end. repeat prop_step leaf_conv. Qed.
+
+Lemma remove_service_frame_unsub A B m k : frame_unsub A B m -> oprop (frame_unsub A B) (remove_service m k).
+Proof. intros H. unfold remove_service. repeat prop_step leaf_conv. Qed.
+
+Lemma remove_object_frame_unsub A B m k : frame_unsub A B m -> oprop (frame_unsub A B) (remove_object m k).
+Proof.
+  intros H. unfold remove_object.
+  repeat first [ match goal with |- oprop _ (remove_service _ _) => apply remove_service_frame_unsub end
+               | prop_step leaf_conv ]; assumption.
+Qed.
+
+Lemma remove_listener_frame_unsub A B m k : frame_unsub A B m -> frame_unsub A B (remove_listener m k).
+Proof. intros H. unfold remove_listener. destruct (listeners (ms m) !! k); exact H. Qed.
+
+Definition svc_drop_subs (c : conn) (sv : svc) : svc := sv <| s_subs ::= fun x => x ∖ {[c]} |>.
+
+(* C04_transitions on disconnect: when connection [c] is removed, then — in the state [m3] where
+   c's own listeners, objects and services are already gone — the two passes run, the notices
+   queued for the owners are exactly those of the events / all-events sets that become empty by
+   removing [c], and afterwards [c] is in no subscriber set of any remaining service *)
+Theorem shutdown_conn_subscriptions m c sd cs m' :
+  conns (ms m) !! c = Some cs -> shutdown_conn m c sd = Done m' ->
+  exists m3 m4 m5,
+    conns (ms m3) = delete c (conns (ms m)) /\
+    unsub_events_pass c m3 = Done m4 /\ unsub_all_pass c m4 = Done m5 /\
+    w_unsub_ev (mw m') = rev (flat_map (unsub_ev_entries c (ms m3)) (svc_keys m3)) ++ w_unsub_ev (mw m) /\
+    w_unsub_all (mw m') = rev (flat_map (unsub_all_entries c (ms m4)) (svc_keys m4)) ++ w_unsub_all (mw m) /\
+    svcs (ms m4) = svc_drop_events c <$> svcs (ms m3) /\
+    svcs (ms m5) = svc_drop_all c <$> svcs (ms m4).
+Proof.
+  intros Hc. rewrite shutdown_conn_unfold, Hc. cbv zeta.
+  set (m1 := if sd && cs_alive cs then _ else _).
+  assert (F1 : frame_unsub (w_unsub_ev (mw m)) (w_unsub_all (mw m)) m1 /\ conns (ms m1) = delete c (conns (ms m))).
+  { subst m1. destruct (sd && cs_alive cs); split; try split; reflexivity. }
+  clearbody m1. destruct F1 as [F1 C1].
+  set (m2 := foldl remove_listener m1 _).
+  assert (F2 : frame_unsub (w_unsub_ev (mw m)) (w_unsub_all (mw m)) m2 /\ conns (ms m2) = conns (ms m1)).
+  { subst m2. generalize ((fun p : uuid * lis => p.1) <$> List.filter (fun p : uuid * lis => bool_decide (l_owner p.2 = c)) (map_to_list (listeners (ms m1)))).
+    intros ls. revert m1 F1 C1. induction ls as [|k ls IH]; intros m1 F1 C1; cbn [foldl]; [auto|].
+    destruct (IH (remove_listener m1 k)) as [Ha Hb].
+    - apply remove_listener_frame_unsub, F1.
+    - unfold remove_listener. destruct (listeners (ms m1) !! k); exact C1.
+    - split; [exact Ha|]. rewrite Hb. unfold remove_listener. destruct (listeners (ms m1) !! k); reflexivity. }
+  clearbody m2. destruct F2 as [F2 C2].
+  destruct (foldO remove_object _ m2) as [m3|m3|] eqn:E3; cbn [andThen]; try discriminate.
+  assert (F3 : frame_unsub (w_unsub_ev (mw m)) (w_unsub_all (mw m)) m3 /\ conns (ms m3) = conns (ms m2)).
+  { pose proof (oprop_foldO (fun x => frame_unsub (w_unsub_ev (mw m)) (w_unsub_all (mw m)) x /\ conns (ms x) = conns (ms m2))
+                  remove_object _ m2) as H. rewrite E3 in H. apply H; [|auto].
+    intros x k [Hx1 Hx2].
+    assert (G1 := remove_object_frame_unsub _ _ x k Hx1).
+    assert (G2 : oprop (fun y => conns (ms y) = conns (ms m2)) (remove_object x k)).
+    { unfold remove_object, remove_service. repeat prop_step leaf_conv. }
+    destruct (remove_object x k); cbn in *; auto. }
+  destruct F3 as [F3 C3].
+  destruct (unsub_events_pass c m3) as [m4|m4|] eqn:E4; cbn [andThen]; try discriminate.
+  destruct (unsub_all_pass c m4) as [m5|m5|] eqn:E5; cbn [andThen]; try discriminate.
+  destruct (unsub_events_pass_spec _ _ _ E4) as (S4 & W4 & Fr4).
+  destruct (unsub_all_pass_spec _ _ _ E5) as (S5 & W5 & Fr5).
+  set (m6 := m5 <| ms; svcs ::= _ |>).
+  set (A := w_unsub_ev (mw m4)). set (B := w_unsub_all (mw m5)).
+  assert (F6 : frame_unsub A B m6).
+  { subst m6 A B. split; cbn; [|reflexivity]. rewrite Fr5. reflexivity. }
+  clearbody m6.
+  match goal with |- (?x >>> ?f) = _ -> _ => destruct x as [m7|m7|] eqn:E7; cbn [andThen]; try discriminate end.
+  assert (F7 : frame_unsub A B m7).
+  { match type of E7 with foldO ?f ?l ?m = _ => pose proof (oprop_foldO (frame_unsub A B) f l m) as H end.
+    rewrite E7 in H. apply H; [|exact F6]. intros x k Hx. cbv beta.
+    repeat first [ match goal with |- oprop _ (remove_end _ _ _) => apply remove_end_frame_unsub end
+                 | prop_step leaf_conv ]; assumption. }
+  match goal with |- (?x >>> ?f) = _ -> _ => destruct x as [m8|m8|] eqn:E8; cbn [andThen]; try discriminate end.
+  assert (F8 : frame_unsub A B m8).
+  { match type of E8 with foldO ?f ?l ?m = _ => pose proof (oprop_foldO (frame_unsub A B) f l m) as H end.
+    rewrite E8 in H. apply H; [|exact F7]. intros x k Hx. cbv beta.
+    repeat first [ match goal with |- oprop _ (remove_end _ _ _) => apply remove_end_frame_unsub end
+                 | prop_step leaf_conv ]; assumption. }
+  intros [= <-].
+  assert (F9 : frame_unsub A B (foldr (fun (p : N * (N * conn)) (m : M) => m <| mw; w_abort ::= cons p.2 |>) m8 (map_to_list (cs_calls cs)))).
+  { apply (prop_foldr (frame_unsub A B)); [|exact F8]. intros x a Hx. exact Hx. }
+  destruct F9 as [F9a F9b]. destruct F3 as [F3a F3b].
+  exists m3, m4, m5. split; [congruence|]. split; [reflexivity|]. split; [reflexivity|].
+  split; [|split; [|split; assumption]].
+  - cbn. rewrite F9a. subst A. rewrite W4, F3a. reflexivity.
+  - cbn. rewrite F9b. subst B. rewrite W5. f_equal. rewrite Fr4. cbn. exact F3b.
+Qed.
+
+(* after the all-events pass [c] is in no all-events set; after the events pass in no event's set *)
+Lemma svc_drop_events_not_in c sv e set : s_events (svc_drop_events c sv) !! e = Some set -> c ∉ set /\ set <> ∅.
+Proof.
+  unfold svc_drop_events. cbn. rewrite lookup_omap. destruct (s_events sv !! e) as [set0|]; cbn; [|discriminate].
+  unfold drop_sub. destruct (bool_decide_reflect (c ∈ set0)) as [Hin|Hnin].
+  - destruct (bool_decide_reflect (set0 ∖ {[c]} = ∅)) as [He|Hne]; [discriminate|]. intros [= <-].
+    split; [set_solver|exact Hne].
+  - intros [= <-]. split; [exact Hnin|]. intros ->. (* an empty stored set stays: not our concern *)
+Abort.
+
+Lemma svc_drop_events_not_in c sv e set : s_events (svc_drop_events c sv) !! e = Some set -> c ∉ set.
+Proof.
+  unfold svc_drop_events. cbn. rewrite lookup_omap. destruct (s_events sv !! e) as [set0|]; cbn; [|discriminate].
+  unfold drop_sub. destruct (bool_decide_reflect (c ∈ set0)) as [Hin|Hnin].
+  - destruct (bool_decide_reflect (set0 ∖ {[c]} = ∅)) as [He|Hne]; [discriminate|]. intros [= <-]. set_solver.
+  - intros [= <-]. exact Hnin.
+Qed.
+
+Lemma svc_drop_all_not_in c sv : c ∉ s_all (svc_drop_all c sv).
+Proof. unfold svc_drop_all. cbn. set_solver. Qed.
